@@ -1,6 +1,6 @@
 """C07 — simple-regret algorithms recommend their best evaluated candidate."""
 from .. import configs
-from ..algorun import replay_algo, run_algo_task
+from ..algorun import bystander_tasks, replay_algo, run_algo_task
 from ..ledger import recording_classes
 from ..refs.simple_regret import RecommendOracle
 
@@ -38,6 +38,8 @@ def tasks(tier, seed):
                 continue
             ts.append({"kind": "algo", "label": "full%s/%s" % (rn, lab), "cfg": cfg, "mode": "full", "T": T, "R": list(R), "cost": 4,
                        "rng_k": 1 if "Random" in cfg["part"] else None})
+        ts += bystander_tasks(lab, configs.shifted(cfg), [-1.0, 1.0] if wrapper else configs.R3, T_long=100, T_short=16 if wrapper else 24,
+                              bases=("negpeak", "twopeak"), k=1 if tier == "quick" else 2)
         if wrapper and tier == "quick" and cfg["part"] != "Binary":
             continue
         for base in (("negpeak", "off12") if tier == "quick" else ("negpeak", "off12", "peak", "alt", "twopeak")):
